@@ -89,7 +89,8 @@ def split(spec):
             'name': 'B-SPLIT', 'expect': 'valid', 'status': 'failed', 'backend': 'bounded',
             'time': 0.0, 'okind': 'bounded', 'tried': 'enumeration', 'confirmed': True,
             'text': "a statement list is split at single ';' with ';;' as the escape for a literal "
-                    "semicolon and entity references kept whole (independent left-to-right specification)",
+                    "semicolon and entity references kept whole, and every part is a token that starts where "
+                    "its text starts in the source (independent left-to-right specification)",
             'witness': {'inputs': {'value': v['value']},
                         'detail': 'expected parts %r, observed %r' % (v['expected'], v['observed'])}})
     return out
@@ -106,6 +107,14 @@ def reject(spec):
     out = {'unit': 'B-REJECT', 'obligations': [], 'wall': time.time() - t0,
            'bounded': [{'id': 'B-REJECT', 'function': 'tokenize.iter_xml o parser.ElementParser o program builder',
                         'bound': r['bound'] + ' + tag soup', 'cases': r['cases'], 'distinct': r['distinct']}]}
+    mis = r.get('misplaced_errors') or []
+    if mis:
+        out['obligations'].append({
+            'name': 'B-REJECT.anchored', 'expect': 'valid', 'status': 'failed', 'backend': 'bounded',
+            'time': 0.0, 'okind': 'bounded', 'tried': 'enumeration', 'confirmed': True,
+            'text': 'the token of every TemplateError raised for a catalogue document is exactly the '
+                    'offending substring: source[offset:offset+len(token)] == token',
+            'witness': {'inputs': {'body': mis[0][0]}, 'detail': mis[0][1]}})
     bad = r.get('unexpected_crashes') or []
     if bad:
         out['obligations'].append({
@@ -113,4 +122,53 @@ def reject(spec):
             'time': 0.0, 'okind': 'bounded', 'tried': 'enumeration', 'confirmed': True,
             'text': 'a document is compiled or rejected with a TemplateError, never with another exception',
             'witness': {'inputs': {'body': bad[0][0]}, 'detail': 'compiling raises %s' % bad[0][1]}})
+    return out
+
+
+def errpos(spec):
+    """B-ERRPOS (C11, bounded): one obligation per family of erroneous templates; a family listed in
+    known_findings.json (obligation `B-ERRPOS[family]`, witness = the JSON list of the failing
+    templates) is reported as KNOWN-FINDING as long as nothing outside that list fails"""
+    import json as _json
+    t0 = time.time()
+    r = _run('errpos.py', [REPO])
+    fams = {}
+    for v in r.get('violations', []):
+        fams.setdefault(v['family'], []).append(v)
+    out = {'unit': 'B-ERRPOS', 'obligations': [], 'wall': time.time() - t0, 'known': {},
+           'bounded': [{'id': 'B-ERRPOS', 'function': 'compile pipeline: error token of rejected templates',
+                        'bound': r['bound'], 'cases': r['cases'], 'distinct': r['distinct']}]}
+    from pyvc.check import load_known
+    listed = {f['obligation']: f for f in load_known().get('findings', [])
+              if f['obligation'].startswith('B-ERRPOS[')}
+    for fam, vs in sorted(fams.items()):
+        name = 'B-ERRPOS[%s]' % fam
+        o = {'name': name, 'expect': 'valid', 'status': 'failed', 'backend': 'bounded', 'time': 0.0,
+             'okind': 'bounded', 'tried': 'enumeration', 'confirmed': True,
+             'text': 'the token of the TemplateError is exactly the offending substring of the source '
+                     '(offset, text, line and column) for every catalogue member of this family',
+             'witness': {'inputs': {'template': vs[0]['template']},
+                         'detail': '%s: %s' % (vs[0]['error'], vs[0]['what'])}}
+        f = listed.get(name)
+        if f is not None:
+            try:
+                allowed = set(_json.loads(f['witness']))
+            except Exception:
+                allowed = set()
+            extra = [v for v in vs if v['template'] not in allowed]
+            if not extra:
+                o['known'] = True
+                out['known'][name] = [{'what': f['what'], 'witness': f['witness']}]
+            else:
+                o['witness'] = {'inputs': {'template': extra[0]['template']},
+                                'detail': '%s: %s (not among the listed witnesses of the known finding)'
+                                          % (extra[0]['error'], extra[0]['what'])}
+        out['obligations'].append(o)
+    for name, f in listed.items():
+        if name[len('B-ERRPOS['):-1] not in fams:
+            # listed finding no longer reproduces: a discharged `known` obligation says so
+            out['obligations'].append({'name': name, 'expect': 'valid', 'status': 'discharged', 'backend': 'bounded',
+                                       'time': 0.0, 'okind': 'bounded', 'known': True, 'tried': 'enumeration',
+                                       'text': 'listed finding'})
+            out['known'][name] = [{'what': f['what'], 'witness': f['witness']}]
     return out
